@@ -38,8 +38,12 @@ class YowMediaProtocolLayer(YowProtocolLayer):
             payload.ParseFromString(mediaNode.getData())
             if payload.HasField("sender_key_distribution_message") and len(payload.ListFields()) == 1:
                 # a sender key distribution on its own (it precedes the first group message to a participant)
-                # is not a media message, whatever the mediatype attribute of its envelope says
-                return
+                # is not a media message, whatever the mediatype attribute of its envelope says - unless it comes with
+                # content of a kind newer than this schema (unknown fields, which ListFields() does not list)
+                alone = Message()
+                alone.sender_key_distribution_message.CopyFrom(payload.sender_key_distribution_message)
+                if payload.SerializeToString() == alone.SerializeToString():
+                    return
             if mediaNode.getAttributeValue("mediatype") == "image":
                 entity = ImageDownloadableMediaMessageProtocolEntity.fromProtocolTreeNode(node)
                 self.toUpper(entity)
